@@ -5,6 +5,7 @@ document and independent of the implementation.
 -/
 import Rml.Lemmas.Amf0Enc
 import Rml.Lemmas.Amf0Dec
+import Rml.Lemmas.Amf0Trunc
 namespace Rml.C12
 open Rml Rml.Amf0 Rml.Spec.Amf0
 
@@ -54,5 +55,41 @@ example : Encodes (.object [([97], .null)]) [8, 0xFF, 0xFF, 0xFF, 0xFF, 0, 1, 97
 /-- marker 4 (MovieClip) is refused -/
 example : decode [4, 0] = .error (.unknownMarker 4) := by
   simp [decode, decodeRest, readAll, readValue]
+
+/-- **truncation.**  For EVERY input the decoder reads completely (in particular every specification
+    encoding, `C12_decode_spec`) and EVERY cut point `k`: the decoder either rejects the first `k`
+    bytes or returns a *truncation prefix* of the full result — a list prefix whose last element may
+    itself be a strict array cut short, recursively (`TPL`) — and has then consumed all `k` bytes, or it
+    stopped at the same object-end marker as on the full input with the identical values.  It never
+    returns a value that the full input does not contain at that position. -/
+theorem C12_truncation (bs : Bytes) (k : Nat) (vs vs' : List Val) (r r' : Bytes)
+    (hfull : decodeRest bs = .ok (vs, r)) (hcut : decodeRest (bs.take k) = .ok (vs', r')) :
+    TPL vs' vs := by
+  unfold decodeRest at hfull hcut
+  have hsplit : bs = bs.take k ++ bs.drop k := (List.take_append_drop k bs).symm
+  rw [hsplit] at hfull
+  rcases readAll_trunc _ _ (bs.take k) (bs.drop k) [] vs' r' (vs, r) hcut (by rw [← hsplit] at hfull ⊢; exact hfull) with h | ⟨_, h⟩
+  · simp only [Prod.mk.injEq] at h; rw [h.1]; exact TPL_refl _
+  · exact h
+
+/-- … instantiated at the encoder's own output -/
+theorem C12_truncation_of_encoding (vs : List Val) (bs : Bytes) (wf : WFList vs) (henc : encode vs = .ok bs)
+    (hd : depthList vs ≤ maxDepth) (k : Nat) (vs' : List Val) (r' : Bytes)
+    (hcut : decodeRest (bs.take k) = .ok (vs', r')) : TPL vs' vs :=
+  C12_truncation bs k vs vs' [] r' (C12_decode_spec vs bs (C12_encode_spec vs bs wf henc) wf hd) hcut
+
+-- the relation is not trivial: a cut inside the second element of a top-level array
+example : (match decodeRest ([10, 0, 0, 0, 2, 5, 2, 0, 1].take 6) with
+          | .ok ([.array [.null]], []) => true
+          | _ => false) = true ∧
+    TPL [.array [.null]] [.array [.null, .str [65]]] ∧ ¬ TPL [.array [.undefined]] [.array [.null, .str [65]]] := by
+  refine ⟨by decide +kernel, .last _ _ _ (.arr _ _ (.cons _ _ _ (.nil _))), ?_⟩
+  intro h
+  cases h with
+  | last _ _ _ h1 =>
+    cases h1 with
+    | arr _ _ h2 =>
+      cases h2 with
+      | last _ _ _ h3 => cases h3
 
 end Rml.C12
